@@ -80,6 +80,7 @@ class Worker:
         self.name, self.cmd, self.env, self.outdir = name, cmd, env, outdir
         os.makedirs(outdir, exist_ok=True)
         self.logf = open(os.path.join(outdir, 'log.txt'), 'wb')
+        self.t0 = time.time()
         self.p = subprocess.Popen(cmd, env=env, stdout=self.logf, stderr=subprocess.STDOUT, cwd=outdir)
         self.rc = None
 
@@ -320,7 +321,7 @@ def run_check(pid, tier, seed):
             rc = w.wait(timeout=max(5, deadline - time.time()))
             st = read_stats(w.outdir)
             merge_stats(total, st, is_sweep=(stage == 'sweep'))
-            total['stages'][w.name] = {'rc': rc, 'evaluations': st['evaluations']}
+            total['stages'][w.name] = {'rc': rc, 'evaluations': st['evaluations'], 'wall_s': round(time.time() - w.t0, 1)}
             ft = os.path.join(w.outdir, 'fail.tape')
             if os.path.exists(ft):
                 failures.append((stage, ft))
